@@ -16,6 +16,13 @@ def main():
     ap.add_argument("--tier", default=os.environ.get("VERIF_TIER", "quick"))
     ap.add_argument("--replay", default=None)
     a = ap.parse_args()
+    if a.pid == "coqchk":
+        # independent re-check of every compiled file with coqchk; prints the axioms the development relies on
+        ok, log = common.coq_build()
+        mods = " ".join("CK." + l.strip()[:-2].replace("/", ".") for l in open(os.path.join(common.COQ, "_CoqProject")) if l.strip().endswith(".v"))
+        rc, out = common.sh(f"timeout 3000 coqchk -o -silent -Q {common.COQ} CK {mods}", timeout=3100)
+        print(out[-1500:])
+        sys.exit(0 if rc == 0 and "* Axioms: <none>" in out else 1)
     if a.pid == "selftest":
         import selftest
         sys.exit(selftest.main())
